@@ -161,7 +161,12 @@ def validators_used(ctx: Ctx, mods, oid: str):
         ctx.ob(oid, "R18 table", f, f"{name} rejects exactly the documented inputs", not missing and raises == want_r, (f"not found: {missing[:2]}; " if missing else "") + f"{raises} raise statement(s), {want_r} expected: a validator that rejects a valid input turns a correct call into an exception, one that lets an invalid input through voids the solver's preconditions", node=f.node)
 
 
-def generic_sweeps(ctx: Ctx, stutter: bool = True, skip_stutter_modules: tuple = ()):
+# luby() in sat.py is stutter-free only for indices >= 1, which C02 establishes from its call sites; every other
+# property that has sat.py among its anchor files leaves that loop to C02
+DEFAULT_SKIP_STUTTER = ("solvor/sat.py",)
+
+
+def generic_sweeps(ctx: Ctx, stutter: bool = True, skip_stutter_modules: tuple = DEFAULT_SKIP_STUTTER):
     ctx.sweeps_done = True
     mods = anchor_modules(ctx)
     ctx.require(bool(mods), "no anchor module of this property found in the repository")
